@@ -72,7 +72,8 @@ def exercise(V, scheme, nfff, target, proj, tmc, obs_kinds, repeat=False, unsort
     if unsorted_grid:
         o["interpolation_xgrid"] = [1.0, 1e-3, 0.5, 0.1]  # admissible: eko sorts the nodes
     o["ProjectileDIS"] = proj
-    o["observables"] = {k: [dict(x=0.1, Q2=V["Q2"]), dict(Q2=V["Q2"], x=0.5)] for k in obs_kinds}
+    # points listed in DEcreasing-then-increasing Q2 (the runner computes in Q2 order; the card must stay as given), keys in both orders
+    o["observables"] = {k: [dict(x=0.1, Q2=2 * V["Q2"]), dict(Q2=V["Q2"], x=0.5), dict(x=0.3, Q2=1.5 * V["Q2"])] for k in obs_kinds}
     if any(k.startswith("XS") for k in obs_kinds):
         for k in obs_kinds:
             if k.startswith("XS"):
